@@ -18,7 +18,19 @@ import (
 )
 
 // exprPositions are the expression positions of C01.
-var exprPositions = []string{"where", "project", "extend", "extend-unnamed", "summarize", "summarize-by", "sort", "take", "top-count", "top-by", "join", "let"}
+var exprPositions = []string{"where", "project", "extend", "extend-unnamed", "summarize", "summarize-by", "sort", "take", "top-count", "top-by", "join", "let", "let-operand-minus", "let-alias-minus", "let-alias-eq"}
+
+// letUse: the positions in which the expression is a let value that is used
+// (directly or through a second let that only renames it) as an operand.
+func letUse(pos string, v gen.Expr) gen.Expr {
+	switch pos {
+	case "let-operand-minus", "let-alias-minus":
+		return &gen.Binary{Op: "-", X: &gen.Num{Text: "100"}, Y: v}
+	case "let-alias-eq":
+		return &gen.Binary{Op: "==", X: v, Y: &gen.Num{Text: "1"}}
+	}
+	return nil
+}
 
 type posCase struct {
 	Pos  string          `json:"position"`
@@ -67,6 +79,12 @@ func programFor(pos string, x gen.Expr) *gen.Program {
 		t.Ops = []gen.Op{&gen.Join{Right: &gen.Tabular{Table: gen.Ident{Name: "U"}}, Conds: []gen.Expr{x}}}
 	case "let":
 		return &gen.Program{Stmts: []gen.Stmt{&gen.Let{Name: gen.Ident{Name: "v"}, X: x}, &gen.Tabular{Table: gen.Ident{Name: "T"}, Ops: []gen.Op{&gen.Where{Pred: gen.ID("v")}}}}}
+	case "let-operand-minus":
+		t.Ops = []gen.Op{&gen.Project{Cols: []*gen.Col{{Name: name, X: letUse(pos, gen.ID("v"))}}}}
+		return &gen.Program{Stmts: []gen.Stmt{&gen.Let{Name: gen.Ident{Name: "v"}, X: x}, t}}
+	case "let-alias-minus", "let-alias-eq":
+		t.Ops = []gen.Op{&gen.Project{Cols: []*gen.Col{{Name: name, X: letUse(pos, gen.ID("w"))}}}}
+		return &gen.Program{Stmts: []gen.Stmt{&gen.Let{Name: gen.Ident{Name: "v"}, X: x}, &gen.Let{Name: gen.Ident{Name: "w"}, X: gen.ID("v")}, t}}
 	default:
 		panic("unknown position " + pos)
 	}
@@ -88,7 +106,7 @@ func extractSQLExpr(pos string, st *sqlx.Stmt) (sqlx.Expr, string) {
 	switch pos {
 	case "where", "let":
 		return s.Where, need(s.Where != nil, "WHERE clause")
-	case "project", "summarize":
+	case "project", "summarize", "let-operand-minus", "let-alias-minus", "let-alias-eq":
 		if len(s.Items) != 1 || s.Items[0].Star {
 			return nil, fmt.Sprintf("expected one select item, got %d", len(s.Items))
 		}
@@ -209,6 +227,9 @@ func checkExprMeaning(c *posCase) (msg string, info exprInfo) {
 	sx, why := extractSQLExpr(c.Pos, st)
 	if why != "" {
 		return fmt.Sprintf("%s\nsql: %s", why, r.SQL), info
+	}
+	if u := letUse(c.Pos, &gen.Paren{X: x}); u != nil {
+		x = u // the value the use site must compute
 	}
 	keys := identKeys(x)
 	index := map[string]int{}
@@ -501,7 +522,7 @@ func TestC01Random(t *testing.T) {
 		switch pos {
 		case "join":
 			x = genJoinCond(g, min(depth, 3))
-		case "let":
+		case "let", "let-operand-minus", "let-alias-minus", "let-alias-eq":
 			x = g.Expr(min(depth, 4), gen.ECtx{Let: true})
 		case "summarize":
 			x = g.Expr(depth, gen.ECtx{Agg: true})
@@ -584,30 +605,55 @@ func enumTrees(n int, cs []ctor, f func(gen.Expr)) {
 
 // fillLeaves replaces nil leaves by a, b, c, ... in order of appearance.
 func fillLeaves(x gen.Expr, next *int) gen.Expr {
+	return fillLeavesMode(x, next, "ident")
+}
+
+// leafModes: what the leaves of an enumerated tree are.
+var leafModes = []string{"ident", "str", "num", "ident-str", "str-ident", "same-str"}
+
+func fillLeavesMode(x gen.Expr, next *int, mode string) gen.Expr {
 	leaf := func() gen.Expr {
-		name := string(rune('a' + *next%6))
+		i := *next
 		*next++
-		return gen.ID(name)
+		id := gen.ID(string(rune('a' + i%6)))
+		str := &gen.Str{Value: fmt.Sprintf("s%d-", i)}
+		switch mode {
+		case "str":
+			return str
+		case "same-str":
+			return &gen.Str{Value: "x"}
+		case "num":
+			return &gen.Num{Text: fmt.Sprint(i + 1)}
+		case "ident-str":
+			if i%2 == 1 {
+				return str
+			}
+		case "str-ident":
+			if i%2 == 0 {
+				return str
+			}
+		}
+		return id
 	}
 	if x == nil {
 		return leaf()
 	}
 	switch x := x.(type) {
 	case *gen.Binary:
-		l := fillLeaves(x.X, next)
-		return &gen.Binary{Op: x.Op, X: l, Y: fillLeaves(x.Y, next)}
+		l := fillLeavesMode(x.X, next, mode)
+		return &gen.Binary{Op: x.Op, X: l, Y: fillLeavesMode(x.Y, next, mode)}
 	case *gen.Unary:
-		return &gen.Unary{Op: x.Op, X: fillLeaves(x.X, next)}
+		return &gen.Unary{Op: x.Op, X: fillLeavesMode(x.X, next, mode)}
 	case *gen.In:
-		l := fillLeaves(x.X, next)
-		return &gen.In{X: l, Vals: []gen.Expr{fillLeaves(x.Vals[0], next)}}
+		l := fillLeavesMode(x.X, next, mode)
+		return &gen.In{X: l, Vals: []gen.Expr{fillLeavesMode(x.Vals[0], next, mode)}}
 	case *gen.Index:
-		l := fillLeaves(x.X, next)
-		return &gen.Index{X: l, I: fillLeaves(x.I, next)}
+		l := fillLeavesMode(x.X, next, mode)
+		return &gen.Index{X: l, I: fillLeavesMode(x.I, next, mode)}
 	case *gen.Call:
 		out := &gen.Call{Func: x.Func}
 		for _, a := range x.Args {
-			out.Args = append(out.Args, fillLeaves(a, next))
+			out.Args = append(out.Args, fillLeavesMode(a, next, mode))
 		}
 		return out
 	}
@@ -644,6 +690,60 @@ func parenthesize(x gen.Expr, all bool) gen.Expr {
 		return out
 	}
 	return x
+}
+
+// TestC01Positions: every small tree in every position that takes a plain
+// expression, with identifiers, string literals, numbers and mixtures as leaves.
+func TestC01Positions(t *testing.T) {
+	st := harn.NewStats(env, "positions")
+	defer st.Flush()
+	maxNodes := 2
+	cs := exhaustiveCtors()
+	positions := []string{"project", "extend", "extend-unnamed", "summarize-by", "sort", "top-by", "where", "let", "let-operand-minus", "let-alias-minus", "let-alias-eq"}
+	st.SetExhaustive(fmt.Sprintf("all expression trees with <= %d operator nodes over %d constructors, leaves %q, in the positions %q (let: constant leaves only), with the parentheses the grammar needs and with every operand parenthesised", maxNodes, len(cs), leafModes, positions))
+	idx := 0
+	failed := false
+	for n := 1; n <= maxNodes && !failed; n++ {
+		enumTrees(n, cs, func(shape gen.Expr) {
+			if failed {
+				return
+			}
+			idx++
+			if idx%env.NShards != env.Shard {
+				return
+			}
+			for _, mode := range leafModes {
+				for _, pos := range positions {
+					if pos == "where" && mode == "ident" {
+						continue // TestC01Exhaustive
+					}
+					if strings.HasPrefix(pos, "let") && mode != "str" && mode != "num" && mode != "same-str" {
+						continue
+					}
+					for _, all := range []bool{false, true} {
+						next := 0
+						x := parenthesize(fillLeavesMode(shape, &next, mode), all)
+						c := &posCase{Pos: pos, Tree: gen.MarshalTree(x), x: x}
+						msg, info := checkExprMeaning(c)
+						if info.Harness != "" {
+							t.Fatalf("harness error on %s in %s: %s", gen.ExprSource(x), pos, info.Harness)
+						}
+						st.Eval()
+						st.NonTrivialExact(1)
+						st.Class("position:" + pos)
+						st.Class("leaves:" + mode)
+						st.SampleHashed(pos+"/"+mode, gen.Canon(x), func() any { return map[string]string{"pql": gen.Source(programFor(pos, x)), "sql": info.SQL} })
+						if msg != "" {
+							failed = true
+							c.Src = gen.Source(programFor(pos, x))
+							st.Violation(t, "C01", "exprmeaning", c, "%s\n%s", c.Src, msg)
+							return
+						}
+					}
+				}
+			}
+		})
+	}
 }
 
 func TestC01Exhaustive(t *testing.T) {
